@@ -4,7 +4,7 @@ from .common import wint
 from .x_arith import mk, fmt_of, mk_hist
 
 
-def observe_bitwise(fx, np, props, op, tx, cxs, ty=None, cys=None, mask=None, side='right', scalar=False, hist=None, shape=None):
+def observe_bitwise(fx, np, props, op, tx, cxs, ty=None, cys=None, mask=None, side='right', scalar=False, hist=None, shape=None, mask_as=None):
     """op in not/and/or/xor.  y: a scalar Fxp of format ty (codes cys, one per x element => element-wise scalar calls are
     made by the caller) or an integer mask on either side."""
     row = {'k': 'bitwise', 'p': list(props), 'op': op, 'x': dict(zip('swf', (bool(tx[0]), tx[1], tx[2]))),
@@ -25,11 +25,17 @@ def observe_bitwise(fx, np, props, op, tx, cxs, ty=None, cys=None, mask=None, si
             Z = {'and': lambda: X & Y, 'or': lambda: X | Y, 'xor': lambda: X ^ Y}[op]()
             cy = cys
         else:
+            if mask_as:            # the integer mask carried by a NumPy integer scalar / 0-d array (right-hand side)
+                tp = np.int64 if mask_as == '0d' else getattr(np, mask_as)
+                if not (np.iinfo(tp).min <= mask <= np.iinfo(tp).max):
+                    return None
+                pymask, mask = mask, (np.array(mask, dtype=np.int64) if mask_as == '0d' else tp(mask))
+                row['route'] = row['route'] + '/np.' + mask_as
             if side == 'right':
                 Z = {'and': lambda: X & mask, 'or': lambda: X | mask, 'xor': lambda: X ^ mask}[op]()
             else:
                 Z = {'and': lambda: mask & X, 'or': lambda: mask | X, 'xor': lambda: mask ^ X}[op]()
-            cy = mask
+            cy = int(mask)
         cl = [cxs[0]] if scalar else list(cxs)
         if common.codes_of(X) != cl:
             raise AssertionError('operand modified')
